@@ -187,3 +187,14 @@ func init() {
 		fmt.Fprintf(os.Stderr, "STATS fen total=%d accepted=%d rejected=%d panicked=%d\n", so.n, acc, rej, pan)
 	}
 }
+
+func init() {
+	commands["fen1"] = func(args []string) {
+		b := make([]byte, len(args[0])/2)
+		for i := range b {
+			fmt.Sscanf(args[0][2*i:2*i+2], "%02x", &b[i])
+		}
+		out.WriteString(fenImpl(string(b)))
+		out.WriteByte('\n')
+	}
+}
